@@ -27,7 +27,7 @@ CONSTANTS MaxLen,               \* lifecycles per history
           CloseReaderOnKill     \* TRUE: kill_workers() closes the parent's read end of the call queue
 
 Pools == {"plain", "reusable"}
-Loads == {"small", "bigarg", "bigres", "nested"}
+Loads == {"small", "bigarg", "bigres", "nested", "spawnfail"}     \* spawnfail: no worker can be spawned (the first submit() raises)
 Busys == {"idle", "running", "queued"}
 Ends  == {"wait", "ctx", "nowait", "kill", "crash", "timeout", "cancel", "resize", "replace_kill"}
 Killing == {"kill", "crash", "replace_kill"}          \* ends in which workers die without reading the call queue
@@ -38,6 +38,7 @@ Valid(l) == /\ (l.end = "timeout" => l.busy = "idle")
             /\ (l.end = "resize" => l.pool = "reusable" /\ l.busy = "idle")
             /\ (l.end = "replace_kill" => l.pool = "reusable")
             /\ (l.end = "crash" <=> l.sig # "none")
+            /\ (l.load = "spawnfail" => l.busy = "idle" /\ l.end \in {"wait", "ctx", "nowait", "kill"})
 Lives == {l \in [pool : Pools, load : Loads, busy : Busys, end : Ends, sig : Sigs \cup {"none"}] : Valid(l)}
 
 VARIABLES hist, phase, cur, ledger, feederBlocked
@@ -53,8 +54,10 @@ Create(l) == /\ phase = "idle" /\ Len(hist) < MaxLen /\ l \in Lives
              /\ UNCHANGED <<hist, feederBlocked>>
 \* first submit: manager thread, feeder thread, worker processes (+ the exit-lock semaphore of each); then the load
 Load == /\ phase = "created" /\ phase' = "loaded"
-        /\ ledger' = ledger \cup {"mgr_thread", "feeder_thread", "workers", "worker_sems"}
-                            \cup (IF cur.load = "nested" /\ cur.busy # "idle" THEN {"grandchildren"} ELSE {})
+        \* (spawnfail: submit() raised while spawning the first worker: no thread was started, no worker exists)
+        /\ ledger' = IF cur.load = "spawnfail" THEN ledger
+                     ELSE ledger \cup {"mgr_thread", "feeder_thread", "workers", "worker_sems"}
+                                 \cup (IF cur.load = "nested" /\ cur.busy # "idle" THEN {"grandchildren"} ELSE {})
         /\ feederBlocked' = (cur.load = "bigarg" /\ cur.busy = "queued")
         /\ UNCHANGED <<hist, cur>>
 \* the end begins: the workers leave (sentinel / idle timeout) or are killed together with their descendants
